@@ -491,6 +491,14 @@ def run(ctx):
         mspec = {"name": "outer", "nodes": [{"k": "sub", "name": "inner", "prog": {"name": "inner", "nodes": [{"k": "fn", "name": "draw", "params": [{"n": "mx"}], "outs": ["drawn"], "beh": ["reseed", "mx"]}, {"k": "fn", "name": "use", "params": [{"n": "drawn"}], "outs": ["used"]}], "bind": {}}, "map": {"over": ["mx"], "mode": "zip", "err": "raise"}}], "bind": {}}
         variants(ctx, {"family": "mapped", "spec": mspec, "inputs": {"mx": ["a", "b", "c"]}, "kw": {}})
         ctx.case({"directed": "reseeding-bodies"}, True)
+        # directed: a mapping nested-graph node whose mapped input is an EMPTY list at run time (an upstream filter kept
+        # nothing), observed by processors
+        for _ in range(2):
+            efam = families.mapped(ctx.rng, err="continue")
+            for k_ in efam["over"]:
+                efam["inputs"][k_] = []
+            variants(ctx, efam)
+        ctx.case({"directed": "empty-mapping-node"}, True)
     for i in range(n):
         if i % 6 == 5:
             map_call(ctx, i)
